@@ -457,8 +457,7 @@ def _check_op(cls, op, prev, ob, pad):
             k = start + j - ps
             if not (0 <= k < pn) or not _same(cls, evs[j], pe[k]):
                 return dict(kind='slice-offset-wrong', new_start=start, old_start=ps, **info)
-        if not (ps <= start and end <= max(pend, ps)):
-            return dict(kind='slice-offset-wrong', new_start=start, old_start=ps, **info)
+        # (an empty slice contains no element: the property does not constrain its offset)
         return None
     if code == DEEPCOPY:
         if (start, end, n) != (ps, pend, pn) or not _all_same(cls, evs, pe):
